@@ -217,7 +217,7 @@ def examineSnaps (o : Oracles) (fs : FS) (cleanup : List (RegKey × Nat)) (skipp
           if !shouldUpdate && !shouldSort then go rest fs (obs ++ st.obsolete) written
           else
             let ids := if shouldSort then sortNat st.testIDs else st.testIDs
-            if shouldSort && !(allPairsOrdered ids) then .unsupportedOrder else
+            if shouldSort && !(allPairsOrdered ids && pairwiseComparable ids) then .unsupportedOrder else
             let frames := ids.map (fun id =>
               match testsGet st.tests id with
               | none => some []
